@@ -125,4 +125,11 @@ CLAIMED["C05"] = {"text": "Coq theorems (data flow / formatting): the pin positi
                  "with every advertised pin.",
          "note": TB + "TLS presents Certificates[0]; SHA-256 collision resistance; curl's pin check (exercised in C07's run) are assumptions.",
          "technique": "Coq proof of the formatting/data-flow half + in-Coq recomputation of the pin of the observed key (validation by computation)"}
+CLAIMED["C12"] = {"text": "Coq theorems: for every sequence of broker events the listener is open iff not (-one-shell and a connected event was handled); the "
+                 "connected event occurs exactly at full attachment (broker theorem), so refused and half-attached attempts never close it; no help is "
+                 "re-offered under -one-shell; exit status 0 for ErrOneShellClosed/EOF. PARTIAL: that Close makes the kernel refuse connections 'shortly' "
+                 "and that the attached shell is undisturbed is exercised: a real Server is probed with connect(2) at every stage of 12 scenarios "
+                 "(/i+/o in both orders, /io; preceded by half-attached and refused attempts; traffic after the close; Do must return ErrOneShellClosed by itself).",
+         "note": TB + "net.Listener.Close / http.Server.Shutdown semantics are net/http's; real-time polling (up to 3 s) for 'refused'.",
+         "technique": "Coq proof (watcher logic composed with the broker invariants) + real-socket scenario test judged by vm_compute"}
 NOT_CLAIMED = {}
